@@ -15,7 +15,7 @@
         or replaced boxes (inline-blocks being atomic).
    Outside it the Go code itself is not defined: drawInlineLevel panics on
    "unexpected box" (draw.go 1545); the model reproduces that Panic.         *)
-From Verif Require Import Base.GoSem Base.SortStable Draw.Stacking Draw.PaintSpec Draw.StackingProofs Draw.StackingOnce.
+From Verif Require Import Base.GoSem Base.SortStable Draw.Stacking Draw.PaintSpec Draw.StackingProofs Draw.StackingOnce Draw.StackingSingular.
 From Coq Require Import List ZArith NArith Bool Sorted Permutation.
 Import ListNotations.
 
@@ -155,6 +155,7 @@ Print Assumptions C16_event_ids_in_subtree.
 (* the root of a context: group effects, background + border, content, then its outline *)
 Theorem C16_context_root_order :
   forall forms_ctx level zsort n real b,
+  css_not_displayed (binfo_of b) = false ->
   exists content outlines,
     spec_ctx forms_ctx level zsort (S n) real b =
       wrap EOpacity (bopac (binfo_of b)) (bid (binfo_of b))
@@ -232,15 +233,63 @@ Theorem C16_effects_bracket_subtree_holds : C16_effects_bracket_subtree_statemen
 Proof. exact effects_bracket_subtree_all. Qed.
 Print Assumptions C16_effects_bracket_subtree_holds.
 
+(* ---- non-invertible transforms (draw.go 245-259) ----
+   `bsing i`: the matrix getMatrix computes for the box has determinant 0.  The model
+   (Draw/Stacking.v `paint`) returns before painting anything, after the opacity
+   group was created: the group is abandoned empty and, drawStackingContext having
+   a value receiver, the callers keep their own destination. *)
+
+(* the box and its whole sub-tree paint nothing (not even the Push/Pop of its opacity group) *)
+Theorem C16_singular_paints_nothing : forall c, singular (ctx_info c) = true -> paint c = Ok [].
+Proof. exact singular_paints_nothing. Qed.
+Print Assumptions C16_singular_paints_nothing.
+
+(* ... and nothing else changes: the paint sequence of a tree is the paint sequence of
+   the same tree with every singular matrix replaced by an invertible one (`regular`:
+   same stacking contexts, a transform forms one whatever its matrix), with the
+   events naming a box of a singular sub-tree (`hidden_ids`) deleted.  Every box
+   painted after (or before) a singular box is still painted, in the same order. *)
+Theorem C16_singular_confined :
+  forall zsort, z_then_tree_order css_level zsort ->
+  forall b, wf_shape b = true -> NoDup (ids b) ->
+  paint (from_box b) =
+  Ok (filter (keep (hidden_ids b)) (spec_paint impl_forms_ctx css_level zsort (regular b))).
+Proof. exact paint_singular_confined. Qed.
+Print Assumptions C16_singular_confined.
+
+Theorem C16_singular_confined_spec :
+  forall zsort, z_then_tree_order css_level zsort ->
+  forall b, NoDup (ids b) ->
+  spec_paint impl_forms_ctx css_level zsort b =
+  filter (keep (hidden_ids b)) (spec_paint impl_forms_ctx css_level zsort (regular b)).
+Proof. exact singular_confined. Qed.
+Print Assumptions C16_singular_confined_spec.
+
+(* what is deleted: exactly the ids of the sub-trees of the boxes that are not displayed *)
+Theorem C16_hidden_ids_are_singular_subtrees : forall b id,
+  In id (hidden_ids b) <->
+  exists x, In x (boxes b) /\ css_not_displayed (binfo_of x) = true /\ In id (ids x).
+Proof. exact hidden_ids_spec. Qed.
+Print Assumptions C16_hidden_ids_are_singular_subtrees.
+
+Theorem C16_painted_outside_singular :
+  forall zsort, z_then_tree_order css_level zsort ->
+  forall b, NoDup (ids b) ->
+  forall e, ~ In (ev_id e) (hidden_ids b) ->
+  (In e (spec_paint impl_forms_ctx css_level zsort b) <->
+   In e (spec_paint impl_forms_ctx css_level zsort (regular b))).
+Proof. exact painted_outside_singular. Qed.
+Print Assumptions C16_painted_outside_singular.
+
 (* ---- the hypotheses are inhabited ---- *)
 
 Example C16_zsort_exists : z_then_tree_order css_level (isort (fun b => css_level (binfo_of b))).
 Proof. exact (fun l => isort_contract (fun b => css_level (binfo_of b)) l). Qed.
 
-Definition ex_leaf (id : N) := Box (mkB id KText false None false false false false 4) [].
+Definition ex_leaf (id : N) := Box (mkB id KText false None false false false false 4 false) [].
 Definition ex_block (id : N) (pos : bool) (z : option Z) (cs : list box) :=
-  Box (mkB id KBlock pos z false false false false 3) cs.
-Definition ex_line (id : N) (cs : list box) := Box (mkB id KLine false None false false false false 0) cs.
+  Box (mkB id KBlock pos z false false false false 3 false) cs.
+Definition ex_line (id : N) (cs : list box) := Box (mkB id KLine false None false false false false 0 false) cs.
 
 (* root > [ A(z=1) ; B(z=-1) ; C(z=1) ; D(z auto, positioned) ] with a text each *)
 Definition ex_tree : box :=
@@ -263,3 +312,21 @@ Example C16_example_order :
       Bg 3; Border 3; Bg 31; Border 31; Content 32; Outline 3; Outline 31; Outline 32;
       Outline 0]%N.
 Proof. vm_compute. reflexivity. Qed.
+
+(* the hidden state `opacity: 0; transform: scale(0)` on box 2 (z-index -1, painted
+   first): box 2 and its text paint nothing, not even an opacity group; everything
+   that follows in the stacking order (the in-flow text, the z-index 1 box) is painted *)
+Definition ex_hidden_tree : box :=
+  ex_block 0 false None
+    [ Box (mkB 2 KBlock true (Some (-1)%Z) false true true false 3 true) [ex_line 21 [ex_leaf 22]];
+      ex_block 5 false None [ex_line 51 [ex_leaf 52]];
+      ex_block 3 true (Some 1%Z) [ex_line 31 [ex_leaf 32]] ].
+
+Example C16_example_singular :
+  paint (from_box ex_hidden_tree) =
+  Ok [Bg 0; Border 0;
+      Bg 5; Border 5; Bg 51; Border 51; Content 52;
+      Bg 3; Border 3; Bg 31; Border 31; Content 32; Outline 3; Outline 31; Outline 32;
+      Outline 0; Outline 5; Outline 51; Outline 52]%N
+  /\ hidden_ids ex_hidden_tree = [2; 21; 22]%N.
+Proof. vm_compute. split; reflexivity. Qed.
